@@ -21,7 +21,10 @@ from . import meshgen as MG
 PROP = 'C15'
 LEAN_MODULES = ['Femio.Props.C15']
 THEOREMS = ['C15_const_zero', 'C15_affine_exact', 'C15_convenience', 'det3_eq_det']
-PARTIAL = []
+PARTIAL = ['the weights w_ij (distance kernel exp / gauss x effective or mean volume) are inputs of the model, read back from '
+           'the real call; the theorems hold for every weight function, so nothing about exp is needed',
+           'floating point (np.linalg.inv, sqrt) is runtime: the exact model and the real matrices agree within the stated '
+           'condition-number-scaled tolerance; guards (distinct vertices, non-zero weight sums) are evaluated per case']
 RULE = ('conforming tet / hex bricks (1..2 or 1..3 cells per direction, optional voids) under a random rational affine '
         'map (sheared / graded) with optional per-node jitter, arbitrary node / element ids in ascending / descending / '
         'shuffled storage order; crossed with mode (nodal, elemental) x n_hop (1,2,3) x kernel (none, exp, gauss with '
@@ -84,6 +87,8 @@ def real_matrices(fd, opt):
                 W[key] = F(float(x)) * V[key]
     else:
         W = V
+    cap['pairs'] = {(int(i), int(j)) for i, j, x in zip(adj.row, adj.col, adj.data) if x != 0 and i != j}
+    real_matrices.last_pairs = cap['pairs']
     return g, W, n
 
 
@@ -289,6 +294,13 @@ def correspond(ctx, m, opt, fd, fields, caseinfo):
         ctx.count('stream:guard-false')
         ctx.notes.append(f'guard false (coincident vertices or zero weight sum) in {caseinfo}')
         return
+    # neighbour sets: model (own incidence -> adjacency -> n-hop) vs the real n-hop adjacency
+    mp = {k for k in mod['rows'] if k[0] != k[1]}
+    if mp != real_matrices.last_pairs:
+        d = sorted(mp ^ real_matrices.last_pairs)
+        ctx.disagree('n-hop neighbour sets', {**caseinfo, 'first_differing_pairs': d[:5], 'n_differing': len(d)},
+                     len(real_matrices.last_pairs), len(mp))
+        return
     # the exact det test of the model must agree with the exact rank test of the harness (weights positive)
     if opt['moment'] and [bool(d) for d in mod['dets']] != span:
         ctx.disagree('det M_i != 0 (model) vs neighbourhood spans space (exact rank)', caseinfo, span, mod['dets'])
@@ -378,7 +390,7 @@ def gen_opts(ctx, combos):
 def run(ctx):
     rnd = ctx.rng
     combos = list(itertools.product(['nodal', 'elemental'], [1, 2, 3], KERNELS, [True, False]))   # 36
-    reps = ctx.n(2, 12)
+    reps = ctx.n(4, 14)
     n_meshes = 0
     for rep in range(reps):
         rnd.shuffle(combos)
